@@ -114,3 +114,13 @@ Definition lazy_divisions_exact : bool :=
   Z.eqb ((lazy_wh_kick * lazy_wh_disp * gen_SC) mod 2) 0 &&
   forallb (fun row => Z.eqb ((nthZ saba_cc row * lazy_saba_factor) mod gen_SC) 0 &&
                       Z.eqb ((nthZ saba_cc row * lazy_saba_factor / gen_SC * lazy_saba_disp * gen_SC) mod 2) 0) [0; 1; 2; 3]%nat.
+
+(* round 4: WHFast safe_mode = 0, five steps, the recalculate_coordinates_this_timestep flag raised before steps 3, 4, 5 while
+   unsynchronized: part1 must call reb_integrator_whfast_synchronize EVERY time (not only when the warning is first issued):
+   K(1/2) I K(1) I K(1/2) | K(1/2) I K(1/2) | K(1/2) I K(1/2) | K(1/2) I K(1/2)   (last half drift from the final synchronize) *)
+Definition whfast_recalc_word (corrector : nat) : scheme :=
+  let c := corrector_word (corrector_calls corrector true) in let ci := corrector_word (corrector_calls corrector false) in
+  c ++ [A half; B gen_SC; A gen_SC; B gen_SC; A half] ++ ci ++
+  c ++ wh_kernel ++ ci ++ c ++ wh_kernel ++ ci ++ c ++ wh_kernel ++ ci.
+Definition whfast_recalc_ok : bool :=
+  same_element (full 4) (whfast_recalc_word 0) (repeat_word 5 wh_kernel).
